@@ -1033,8 +1033,9 @@ def corr_ops(ck: Ck) -> None:
         present = dict(zip([(m, b) for _, m, b in OPS_CASES], parse_coq_nested(vals[1])))
         for k, pred in zip(idx, parse_coq_nested(vals[0])):
             if not present[(cases[k][1], cases[k][2])]:
-                missing.add(cases[k][1])          # method renamed / restructured: nothing to compare against
-                continue
+                # the interpreter found no OS call in this method (the access moved somewhere it cannot follow): the model
+                # predicts no access at all, an observed one is a disagreement
+                missing.add(cases[k][1])
             model = sorted({(int(c), ''.join(chr(x) for x in a)) for c, a in pred})
             if model != observed[k]:
                 bad.append({'op': cases[k][0], 'method': cases[k][1], 'branch': cases[k][2], 'arg': cases[k][3],
@@ -1042,7 +1043,7 @@ def corr_ops(ck: Ck) -> None:
                             'observed': [[c, p.replace(base, '{BASE}')] for c, p in observed[k]],
                             'model': [[c, p.replace(base, '{BASE}')] for c, p in model]})
     if missing:
-        ck.notes.append(f'operations correspondence: no site table for methods {sorted(missing)} (renamed?); those cases were skipped')
+        ck.notes.append(f'operations correspondence: the interpreter found no OS call in {sorted(missing)}; the model predicts no access there')
     ck.extra['ops_model_methods_without_sites'] = sorted(missing)
     ck.obligation('correspondence:operations_model', not bad,
                   f'{len(cases)} (operation, argument, handle path, handle data) cases: the (callee, path) list of the model '
@@ -1068,8 +1069,8 @@ def corr_ops(ck: Ck) -> None:
                 part = flat[pos:pos + len(callees)]
                 pos += len(callees)
                 model_steps.append(sorted({(KCODE.get(c, 3), a) for c, a in zip(callees, part) if a is not None}))
-            if pos != len(flat) or any(not table.get((st[2], st[3])) for st in steps):
-                continue                          # a method of the history has no site table (renamed): nothing to compare
+            if pos != len(flat):
+                continue                          # the answer does not match the site table the translator reported
             if model_steps != obs:
                 k = next(i for i, (x, y) in enumerate(zip(model_steps, obs)) if x != y)
                 hbad.append({'history': [{'constrained': st[0], 'op': st[1], 'arg': st[4].replace(base, '{BASE}'),
